@@ -10,7 +10,10 @@ from .. import core
 
 THEOREMS = ['Pk.C17.C17_weight_only_exact', 'Pk.C17.C17_weight_only_unit', 'Pk.C17.C17_offset_average',
             'Pk.C17.C17_streams_instance', 'Pk.C17.C17_streams_int_witness', 'Pk.C17.C17_lifting_layout',
-            'Pk.C17.C17_gaussian_kernel_mean', 'PkLA.rff_gaussian_mean', 'Pk.C17.C17_cauchy_kernel_mean_1d']
+            'Pk.C17.C17_gaussian_kernel_mean', 'PkLA.rff_gaussian_mean', 'Pk.C17.C17_cauchy_kernel_mean_1d',
+            'Pk.C17.C17_cauchy_kernel_mean', 'Pk.C17.C17_laplacian_kernel_mean', 'Pk.C17.C17_offset_unbiased',
+            'Pk.C17.C17_concentration', 'Pk.C17.C17_concentration_gaussian', 'Pk.C17.C17_concentration_cauchy',
+            'Pk.C17.C17_concentration_laplacian', 'Pk.C17.C17_offset_concentration']
 LEVEL = 'other'
 KERNELS = ['gaussian', 'laplacian', 'cauchy']
 
@@ -95,9 +98,10 @@ def run(ctx):
                 '(b) stream model: which draws coincide with a replay of RandomState(seed); (c) KernelApproxLiftingFn '
                 'layout; (d) statistical oracle, seeded and fixed-size: mean estimate over many seeds vs closed-form kernel')
     ctx.explanation = ('level "other": exact identities, layout and the stream model are theorems (C17_*); the feature-map formula '
-                       'is tied to the code by a Float correspondence; that scipy samplers have the named distributions, the '
-                       'Fourier pairs and the O(1/sqrt(D)) concentration are trusted / checked statistically only')
-    ctx.assumptions = ['scipy.stats samplers have the named distributions', 'Fourier pair of the Laplacian kernel; product over coordinates for the Cauchy kernel (proved: Gaussian in any dimension, Cauchy in one coordinate)', 'concentration']
+                       'is tied to the code by a Float correspondence; the kernel means (all three named kernels, any dimension), '
+                       'unbiasedness over the offset and the O(1/sqrt(D)) concentration are theorems GIVEN independent draws from '
+                       'the named distributions; that scipy samplers deliver those is trusted / checked statistically only')
+    ctx.assumptions = ['scipy.stats samplers have the named distributions (norm / cauchy / laplace / uniform)', 'successive draws are independent (false for integer seeds: finding F-rff)']
     ctx.proof_obligations('Properties.C17', THEOREMS)
     drv = ctx.get_driver()
     lines, meta = [], []
